@@ -222,7 +222,9 @@ def mutate(rng, doc, version):
                 ["nobody", "", "Root", 5, None,
                  # (the root's name in another case, padded, doubled: not the root's name)
                  root_name.upper(), root_name.capitalize(), root_name.title(),
-                 root_name + " ", " " + root_name, root_name.swapcase(), root_name * 2])
+                 root_name + " ", " " + root_name, root_name.swapcase(), root_name * 2,
+                 # (... or a part of it)
+                 root_name[1:], root_name[:-1], root_name[:2], root_name[-1:], root_name[:1]])
             labels.append("dangling-signer")
         elif k == "target":
             t = d.get("targets")
